@@ -13,7 +13,7 @@ LEVEL = "exploration"
 TECHNIQUE = "stateful property-based testing: generated interleavings of metadata / RF writes with reader construction and queries on one tree; visibility checked through the oldest and newest live reader, recursive tree snapshots (names, sizes, mtime_ns, SHA-256) around every read-only call"
 RULE = (
     "Histories of 10-25 (thorough: up to 60) steps on one tree holding an RF channel and its 'metadata' channel: "
-    "metadata writes (single and batched, ascending indices around file and subdirectory boundaries, several per "
+    "metadata writes (single and batched, ascending indices plus occasional late writes below all earlier ones, around file and subdirectory boundaries, several per "
     "file), read-only queries before the first write, RF writes (open tmp. file present), "
     "new metadata / RF readers, and read-only calls on any live reader (get_bounds, read ranges, read_latest, "
     "read_flatdict, lsdrf variants, DigitalRFReader.read / get_bounds / read_metadata / get_digital_metadata / "
@@ -47,7 +47,14 @@ def _cases(draw, tier):
     last = steps[-1]["k"]
     rf_next = 0
     for _ in range(nsteps):
-        k = draw(st.sampled_from(["md", "md", "md", "mdb", "rf", "newmd", "newrf", "read", "read", "read", "read"]))
+        k = draw(st.sampled_from(["md", "md", "md", "mdb", "mdlow", "rf", "newmd", "newrf", "read", "read", "read", "read"]))
+        if k == "mdlow":
+            # a late write BELOW everything written so far (the writer allows it): bounds of old readers must follow
+            lowest = min(st_["k"] if "k" in st_ else min(st_.get("ks", [last])) for st_ in steps if st_["s"] in ("md", "mdb"))
+            kk = lowest - draw(st.sampled_from([1, 7, C * N, S * N + 3]))
+            if kk >= 0:
+                steps.append({"s": "md", "k": kk})
+            continue
         if k == "mdb":
             # one write() call with several samples; the later ones on the first sample of the next file / subdirectory
             ks = [last + draw(st.sampled_from([1, 5, 50]))]
@@ -169,6 +176,10 @@ def run_case(case):
                 elif kind == "newmd":
                     try:
                         md_readers.append(drf.DigitalMetadataReader(md))
+                        try:
+                            md_readers[-1].get_bounds()  # an earlier reader that has been used
+                        except IOError:
+                            pass
                     except Exception as e:
                         fail("reader-construction:%s" % type(e).__name__, "step %d: DigitalMetadataReader: %s" % (si, e))
                         return res
